@@ -159,6 +159,10 @@ def header_histories(ctx, n_quick=30, n_thorough=600, kinds=('regular', 'irregul
             ctx.stats['header_history_ops'] += len(ops)
             ctx.stats['header_history_' + kind] += 1
             hdrcorr.run_history(ctx, model, p, fd, ops, desc)
+            if hnum < len(set(kinds)) * 2:
+                # every short history over a small alphabet (deeper when the correspondence has just broken or thorough)
+                broken = any(c['component'] == 'Model.HeaderReads' for c in ctx.corr_failures)
+                hdrcorr.enumerate_short_histories(ctx, model, p, fd, desc, depth=3 if (broken or not ctx.quick) else 2)
     finally:
         model.close()
 
